@@ -5,7 +5,10 @@ package main
 
 import (
 	"encoding/json"
+	"fmt"
 	"strings"
+
+	"github.com/woodsbury/jmespath"
 )
 
 // numberish: strings that are, or nearly are, JSON numbers. Every string of up to three (thorough: four)
@@ -133,3 +136,59 @@ func aliasExprs() []*R {
 }
 
 var aliasDocs = []string{`{"a": ["c", "a", "b"], "b": ["z"]}`, `{"a": [3, 1, 2], "b": []}`, `{"a": ["b", "a"], "b": null}`, `{"a": [2, 1, 3, 0, 9, 8, 7, 6, 5, 4, 12, 11, 10, 15, 14, 13], "b": [1]}`}
+
+// Go values that are not JSON data (typed slices and maps, pointers, structs, byte slices, maps with non-string
+// keys) are opaque: every expression that does not serialise them answers exactly as it answers for any other
+// opaque value, at the root and nested, through both entry points.
+type opaqueRef struct{ K string }
+
+func opaqueValues() []any {
+	var nilMap *map[string]any
+	var nilInt *int
+	one := 1
+	pone := &one
+	return []any{[]map[string]any{{"id": json.Number("1"), "name": "a"}, {"id": json.Number("2"), "name": "b"}}, []string{"x", "y"}, map[string]string{"k": "v", "name": "n"}, map[string][]any{"k": {json.Number("1")}}, [][]any{{json.Number("1")}},
+		[]json.Number{"1", "2"}, []float64{1, 2}, []int{1, 2}, map[string]json.Number{"k": "1"}, [2]any{"a", "b"}, &[]any{"p"}, &map[string]any{"k": "v"}, map[any]any{"k": "v", 1: "uno", "1": "one", true: "yes", "true": "ja"},
+		map[int]any{1: "x"}, struct{ K string }{"v"}, &struct{ K string }{"v"}, json.RawMessage(`[1, 2]`), []byte(`{"k": 1}`), nilMap, nilInt, &pone, []map[any]any{{"k": "v"}}, map[string]map[string]any{"k": {"k": "v"}}, []*int{pone}}
+}
+
+var opaqueExprs = []string{"[0]", "k", "name", "[0].name", "\"1\"", "\"true\"", "type(@)", "keys(@)", "length(@)", "[?@]", "[*]", "*", "values(@)", "[::-1]", "[1:]", "[]", "sort(@)", "k.k", "abs(@)", "to_array(@) | length(@)", "!@", "@ || 'd'", "@ && 'd'",
+	"[@] | length(@)", "not_null(@, 'x') == 'x'", "@ == `null`", "[*].id", "[*] | [*].id", "[?id == `1`]", "map(&id, @)", "items(@)", "reverse(@)", "max(@)", "join(',', @)", "contains(@, 'x')", "merge(@, @)", "[0] == [0]", "@ < `1`", "@ + `1`", "- @", "starts_with(@, 'x')", "sum(@)"}
+
+func opaqueFamily(sum *Summary, site string) {
+	ref := opaqueRef{"v"}
+	for _, text := range opaqueExprs {
+		x, cerr := jmespath.Compile(text)
+		if cerr != nil {
+			continue
+		}
+		for k, wrap := range []func(any) any{func(v any) any { return v }, func(v any) any { return map[string]any{"a": v} }, func(v any) any { return []any{v} }} {
+			t := text
+			if k == 1 {
+				t = "a | " + text
+			} else if k == 2 {
+				t = "[0] | " + text
+			}
+			if k > 0 {
+				var err error
+				if x, err = jmespath.Compile(t); err != nil {
+					continue
+				}
+			}
+			want := search(t, wrap(ref))
+			for _, v := range opaqueValues() {
+				doc := wrap(v)
+				o1 := search(t, doc)
+				o2 := observe(func() (any, error) { return x.Search(doc) })
+				sum.count("opaque-values")
+				for _, o := range []Obs{o1, o2} {
+					ok := o.Kind == want.Kind && (o.Kind != "err" || sameCats(o.Cats, want.Cats)) && (o.Kind != "val" || sameValue(o.Value, want.Value, false) || (!modelled(o.Value) && !modelled(want.Value)))
+					if !ok {
+						sum.direct(site, t, fmt.Sprintf("%#v", doc), fmt.Sprintf("a %T is not JSON data: expected what any opaque value gives (%s), got %s", v, describe(want), describe(o)))
+						break
+					}
+				}
+			}
+		}
+	}
+}
